@@ -48,7 +48,8 @@ RULE = ("for a configuration (grid of 1-4 variations, rep_max below / at / "
         "Signature = (crash-point kind, rep_max class, format, position "
         "class); non-trivial = the crash happened after at least one "
         "repetition or during a save."
-        "The runner under test implements the per-combination start hook and logs every repetition executed without it. ")
+        "The runner under test implements the per-combination start hook and logs every repetition executed without it. "
+        "Progress output off / in files / on the (redirected) screen. ")
 ASSUMPTIONS = ["a crash is os._exit at the failpoint (no buffered data is "
                "flushed); torn writes keep the first b bytes of the file",
                "the restarted run uses the same parameters and a fresh process"]
@@ -66,6 +67,8 @@ class CrashRunner(SimulationRunner):
         super().__init__(read_command_line_args=False)
         if getattr(conf, "progress", None) == "file":
             self.progress_output_type = 'file'      # default text bar, written to files
+        elif getattr(conf, "progress", None) == "screen":
+            pass                                    # the library default: text bar on stdout
         else:
             self.update_progress_function_style = None
         self.conf = conf
@@ -220,6 +223,14 @@ def child_main(conf, wd, faults, uid_base, tag, override=None):
         os.chdir(wd)
         log_fd = os.open(os.path.join(wd, "log_%s.txt" % tag),
                          os.O_WRONLY | os.O_CREAT | os.O_APPEND)
+        # whatever the simulation prints (progress bars on "screen") stays here
+        out_fd = os.open(os.path.join(wd, "stdout_%s.txt" % tag),
+                         os.O_WRONLY | os.O_CREAT | os.O_APPEND)
+        try:
+            sys.stdout.flush()
+        except Exception:
+            pass
+        os.dup2(out_fd, 1)
         c = conf
         if override:
             c = Conf()
@@ -381,7 +392,10 @@ def gen_conf(rng, big):
     if not big and rng.random() < 0.3:
         c.stop_at = int(rng.integers(1, c.rep_max + 2))
     # progress output: switched off, or the default text bar written to files
-    c.progress = "file" if (not big and rng.random() < 0.2) else None
+    c.progress = None
+    if not big and rng.random() < 0.35:
+        c.progress = "file" if rng.random() < 0.5 else "screen"
+
     # some repetitions raise SkipThisOne (never counted, never saved)
     c.skip_p = float(rng.choice([0.0, 0.0, 0.25, 0.45])) if not big else 0.0
     return c
